@@ -64,6 +64,9 @@ var restFixed = []string{
 	`std | (def a (newScope)) @@ a`,
 	`std | (defn f [] (begin)) ;; (list 1 (f) 3)`,
 	`std | (eval (quote (+ 1 2))) @@ (eval (quote (begin)))`,
+	`std | (include "$REPO/tests/inc1.g" "$REPO/tests/inc3.g") ;; (simple1)`,
+	`std | (source "$REPO/tests/inc1.g" "$REPO/tests/inc3.g") ;; (source ["$REPO/tests/inc1.g" "$REPO/tests/inc3.g" "$REPO/tests/inc1.g"]) ;; (inc3)`,
+	`std | (defn q [] (include "$REPO/tests/comments.zy")) ;; (list 7 (q) 8)`,
 	`std | (map (fn [x] (* x x)) [1 2 3]) @@ (apply + [1 2 3])`,
 	`std | (expectError "symbol ` + "`zz`" + ` not found" (zz 1))`,
 	`std | (assert (== 1 1)) ;; (assert (== 1 2)) ;; 5`,
